@@ -243,6 +243,7 @@ theorem life_step (fx : Fix) (s : St) (a : Action) (s' : St) (hctl : CtlOk s) (h
   case hcClose => h_tac
   case hcCtx => h_tac
   case hcInnerRet => h_tac
+  case hcCloseFail => h_tac
   case hcPumpWaited => h_tac
   case hcStop => h_tac
   case stop => h_tac
